@@ -1,0 +1,87 @@
+//go:build verif
+
+// Contracts for package dir, checked by /verif/govc (comment-only file).
+package dir
+
+//@ specfunc dirOK(dip *inode.Inode, op *fstxn.FsTxn) = locked(dip) && inodeInv(dip) && opOpen(op) && dirtyInv()
+//@ specfunc dirMods(dip *inode.Inode) = othersClean(dip)
+
+//@ spec IllegalName
+//@   props C04 C11 C06
+//@   ensures [I4-illegal] result <==> (len(name) == 0 || (len(name) == 1 && name[0] == 46) || (len(name) == 2 && name[0] == 46 && name[1] == 46) || (exists i uint64 :: i < len(name) && (name[i] == 47 || name[i] == 0))) @C04
+//@   loop 0 invariant i >= 0 && i <= int(len(name)) && (forall j uint64 :: j < uint64(i) ==> name[j] != 47 && name[j] != 0)
+//@   loop 0 decreases len(name) - uint64(i)
+
+// S2 (C10), Q1 (C19): the directory-entry codec.
+//@ spec encodeDirEnt
+//@   props C10 C19 C11 C04
+//@   requires de != nil
+//@   requires [I4-store] len(de.name) <= 112 @C04 @C19 @C11
+//@   allocates []uint8, marshal.Enc, cell:uint64
+//@   ensures [S2-dirent] fresh(result) && len(result) == 128 && le64(result, 0) == de.inum && le64(result, 8) == len(de.name) @C10 @C19
+
+//@ spec decodeDirEnt
+//@   props C10 C11
+//@   requires [slot] len(d) == 128 && le64(d, 8) <= 112 @C11
+//@   allocates dir.dirEnt, marshal.Dec, cell:uint64
+//@   ensures [S2-dirent] result != nil && fresh(result) && result.inum == le64(d, 0) && len(result.name) == le64(d, 8) @C10
+
+// Directory shape (I-dir): size is a multiple of the entry size; the name
+// cache, when present, remembers an entry-aligned offset.
+//@ specfunc dirShape(dip *inode.Inode) = dip.Size & 127 == 0 && (dip.Dcache != nil ==> dip.Dcache.Lastoff & 127 == 0)
+//@ specfunc dirReady(dip *inode.Inode, op *fstxn.FsTxn) = dirOK(dip, op) && dirShape(dip)
+// what a directory operation leaves behind: inode invariants, synced-if-it-was, other inodes untouched
+//@ specfunc dirDone(dip *inode.Inode, op *fstxn.FsTxn) = inodeInv(dip) && dirShape(dip) && opOpen(op) && dirtyInv() && (!dirtyinum[dip.Inum] || old(dirtyinum)[dip.Inum]) && othersClean(dip) && listsStable(op.Atxn)
+
+// E7 (C13): an insertion writes exactly one entry-aligned slot (the first
+// free one at or after lastoff, else a new slot at the end); entries never move.
+//@ spec AddNameDir
+//@   props C13 C04 C10 C11 C19 C09
+//@   requires dirReady(dip, op) && dip.Kind == 2 && lastoff & 127 == 0
+//@   requires [I4-store] len(name) <= 112 @C04 @C19
+//@   preserves [allocInv] allocInv() @C15 @C04
+//@   allocates buf.Buf, marshal.Enc, marshal.Dec, cell:uint64, []uint8, dir.dirEnt
+//@   modifies dip.Size, dip.blks[*], dirtyinum, wroteinum, abits, op.Atxn.allocBnums, []uint64@alloctxn.AllocTxn.allocBnums, []uint8, buf.Buf.dirty
+//@   ensures [E7-slot] result0 & 127 == 0 && result0 <= old(dip.Size) @C13
+//@   ensures [E7-grow] dip.Size == old(dip.Size) || (result1 && result0 == old(dip.Size) && dip.Size == old(dip.Size) + 128) @C13 @C09
+//@   ensures dirDone(dip, op) && dip.Kind == 2
+//@   loop 0 invariant off & 127 == 0 && lastoff <= off && finalOff == 0 && dip.Size == old(dip.Size) && dip.Kind == 2 && inodeInv(dip) && dirShape(dip) && opOpen(op) && dirtyInv() && allocInv() && (!dirtyinum[dip.Inum] || old(dirtyinum)[dip.Inum]) && othersClean(dip) && listsStable(op.Atxn)
+//@   loop 0 decreases dip.Size - off
+
+//@ spec IsDirEmpty
+//@   props C05 C04 C11 C10
+//@   requires dirReady(dip, op) && dip.Kind == 2
+//@   preserves [allocInv] allocInv() @C15 @C04
+//@   allocates buf.Buf, marshal.Enc, marshal.Dec, cell:uint64, []uint8, dir.dirEnt
+//@   modifies dip.blks[*], dirtyinum, wroteinum, abits, op.Atxn.allocBnums, []uint64@alloctxn.AllocTxn.allocBnums, []uint8, buf.Buf.dirty
+//@   ensures dirDone(dip, op) && dip.Size == old(dip.Size) && dip.Kind == 2
+//@   loop 0 invariant off & 127 == 0 && off >= 256 && dip.Size == old(dip.Size) && dip.Kind == 2 && inodeInv(dip) && dirShape(dip) && opOpen(op) && dirtyInv() && allocInv() && (!dirtyinum[dip.Inum] || old(dirtyinum)[dip.Inum]) && othersClean(dip) && listsStable(op.Atxn)
+//@   loop 0 decreases dip.Size - off
+
+// C13 E1-E5: enumeration against the abstract directory contents. slotInum(o)
+// is the inode number stored in the 128-byte slot at offset o; the callback is
+// handed exactly the non-empty slots from `start` on, in increasing order.
+//@ specfunc slotInum(dip *inode.Inode, o uint64) = dslot[dip.Inum][o]
+//@ specfunc emitSound(dip *inode.Inode, start uint64, upto uint64) = forall o uint64 :: emitted[o] ==> start <= o && o < upto && o < dip.Size && o & 127 == 0 && slotInum(dip, o) != 0
+//@ specfunc emitComplete(dip *inode.Inode, start uint64, upto uint64) = forall o uint64 :: start <= o && o < upto && o & 127 == 0 && slotInum(dip, o) != 0 ==> emitted[o]
+
+//@ spec ApplyEnts
+//@   props C13 C11 C06 C10
+//@   requires dirReady(dip, op) && dip.Kind == 2
+//@   requires [E1-cookie] start & 127 == 0 @C13 @C11
+//@   preserves [allocInv] allocInv() @C15 @C04
+//@   callback f(name, inum, off): requires [E1-slot] off & 127 == 0 && !emitted[off] && (!emitany || emitlast < off) && inum != 0; modifies nfstypes.Entry3, cell:*nfstypes.Entry3, map[string]dcache.Dentry, emitted, emitany, emitlast; ghostexit emitted = store(emitted, off, true); ghostexit emitany = true; ghostexit emitlast = off
+//@   ghostset emitted = empty
+//@   ghostset emitany = false
+//@   allocates buf.Buf, marshal.Enc, marshal.Dec, cell:uint64, []uint8, dir.dirEnt, nfstypes.Entry3
+//@   modifies dip.blks[*], dirtyinum, wroteinum, abits, op.Atxn.allocBnums, []uint64@alloctxn.AllocTxn.allocBnums, []uint8, buf.Buf.dirty, nfstypes.Entry3, cell:*nfstypes.Entry3, map[string]dcache.Dentry, emitted, emitany, emitlast
+//@   ensures [E1-sound] emitSound(dip, start, dip.Size) @C13
+//@   ensures [E3-complete] emitComplete(dip, start, ite(result, dip.Size, emitlast + 128)) @C13
+//@   ensures [E4-eof] result ==> (forall o uint64 :: emitted[o] ==> o < dip.Size) @C13
+//@   ensures [E5-progress] !result ==> emitany && emitlast >= start && emitlast < dip.Size @C13 @C06
+//@   ensures dirDone(dip, op) && dip.Size == old(dip.Size) && dip.Kind == 2
+//@   loop 0 invariant off & 127 == 0 && start <= off && dip.Size == old(dip.Size) && dip.Kind == 2 && inodeInv(dip) && dirShape(dip) && opOpen(op) && dirtyInv() && allocInv() && (!dirtyinum[dip.Inum] || old(dirtyinum)[dip.Inum]) && othersClean(dip) && listsStable(op.Atxn)
+//@   loop 0 invariant [snd] emitSound(dip, start, off)
+//@   loop 0 invariant [cpl] emitComplete(dip, start, off)
+//@   loop 0 invariant [last] (emitany ==> emitlast < off && emitlast >= start && emitted[emitlast]) && (!emitany ==> forall o uint64 :: !emitted[o])
+//@   loop 0 decreases dip.Size - off
